@@ -149,9 +149,10 @@ def gen_scenario(rng, awkward, n_ops):
     # behind a rebalancer some servers are registered on the wrapped balancer directly
     mixed = lbk == "rb" and rng.random() < 0.4
     inner = lambda: "-inner" if (mixed and rng.random() < 0.45) else ""
-    lines = ["cfg lb=%s codec=%s%s%s%s" % (lbk, codec, " via=srv" if rng.random() < 0.1 else "",
-                                           " opts=1" if rng.random() < 0.25 else "",
-                                           " name=" + rng.choice(["sid", "x-aff_1", "A.b%7Cc"]) if rng.random() < 0.12 else "")]
+    lines = ["cfg lb=%s codec=%s%s%s%s%s" % (lbk, codec, " via=srv" if rng.random() < 0.1 else "",
+                                             " opts=1" if rng.random() < 0.25 else "",
+                                             " name=" + rng.choice(["sid", "x-aff_1", "A.b%7Cc"]) if rng.random() < 0.12 else "",
+                                             " verbose=1" if rng.random() < 0.25 else "")]
     urls = []
     while len(urls) < rng.randint(2, 6):
         u = gen_url(rng, awkward)
